@@ -290,10 +290,12 @@ def atomClassSetA (st0 : PState) (result : List Node) : Res AtomOut :=
   | .error e => .error e
   | .ok (_, st) =>
     let (negateSet, st) := tryConsume 0x5E st
-    match classSetExpression fl (!st.named.isEmpty) (2 * st.input.length + 4) negateSet
+    match classSetExpression fl (!st.named.isEmpty) (2 * st.input.length + 4)
         { inp := st.input, depth := st.depth } with
     | .error e => .error e
     | .ok (cs, cst) =>
+      if negateSet && cs.mayContainStrings then synErr "Negated class may not contain strings"
+      else
       .ok ⟨result ++ [cs.node fl.icase negateSet], { st with input := cst.inp, depth := cst.depth },
         startOffset, true⟩
 
@@ -751,12 +753,14 @@ theorem atomClassSetA_ens {st : PState} (hi : Inv st) {c : Nat} {rest0 : List Na
   obtain ⟨negateSet, st1⟩ := tc
   simp only at h1 ⊢
   have hsuf : st1.input <:+ rest0 := h1.1.suf
-  have h := (classSet_all st.flags (!st1.named.isEmpty) (2 * st1.input.length + 4)).expr negateSet
+  have h := (classSet_all st.flags (!st1.named.isEmpty) (2 * st1.input.length + 4)).expr
     { inp := st1.input, depth := st1.depth }
     ⟨by show 2 * st1.input.length + 2 ≤ _; omega, h1.1.inv.bnd, h1.1.inv.depth⟩
   split
   · rename_i e heq; exact h.error_of_eq heq
   · rename_i cs cst heq
+    split
+    · simp
     have h2 : CSPost _ (cs, cst) := h.ok_of_eq heq
     have hs2 : SSuf cst.inp st1.input := h2.2.1
     have hd2 : cst.depth = st1.depth := h2.2.2
